@@ -110,8 +110,8 @@ def late_specs():
 
 # ---- a function callback that re-enters the library (parses a text with a function call of its own into another context)
 
-NEST_DECLS = [D('fn', 'func', cbs='F'), D('i', 'int', default=0), D('sl', 'str', F_LIST, default=None), D('sec', 'sec', F_MULTI | F_TITLE, sub=[D('fn', 'func', cbs='F'), D('x', 'int', default=0)])]
-NEST_TEXTS = ['fn(a)\ni = 1\n', 'i = 1\nfn(one, "two words", three)\nsl = {x, y}\nfn()\ni = 2\n', 'sec t { fn(p, q) x = 3 }\nfn(r)\nsec u { x = 4 fn(%s) }\ni = 5\n' % ', '.join('a%d' % k for k in range(20))]
+NEST_DECLS = [D('include', 'func', cbs='I'), D('fn', 'func', cbs='F'), D('i', 'int', default=0), D('sl', 'str', F_LIST, default=None), D('sec', 'sec', F_MULTI | F_TITLE, sub=[D('fn', 'func', cbs='F'), D('x', 'int', default=0)])]
+NEST_TEXTS = ['i = 1\ninclude("nestinc.conf")\ni = 3\nsl += {after}\n', 'fn(a)\ni = 1\n', 'i = 1\nfn(one, "two words", three)\nsl = {x, y}\nfn()\ni = 2\n', 'sec t { fn(p, q) x = 3 }\nfn(r)\nsec u { x = 4 fn(%s) }\ni = 5\n' % ', '.join('a%d' % k for k in range(20))]
 
 
 def empty_token_specs():
@@ -143,7 +143,7 @@ def nest_specs():
 
 def nest_script(spec):
     lines, sid = schema.emit_schema(NEST_DECLS)
-    return '\n'.join(list(lines) + ['init 0 %d 0' % sid, 'nestmode 1', 'parse_buf 0 %s' % hx(NEST_TEXTS[spec['nest']]), 'nestmode 0', 'dump 0', 'init 1 %d 0' % sid,
+    return '\n'.join(list(lines) + ['mkfile %s %s' % (hx('nestinc.conf'), hx('sl = {one}\nfn(from, include)\nsl += {two}\ni = 2\n')), 'init 0 %d 0' % sid, 'nestmode 1', 'parse_buf 0 %s' % hx(NEST_TEXTS[spec['nest']]), 'nestmode 0', 'dump 0', 'init 1 %d 0' % sid,
                                   'parse_buf 1 %s' % hx(NEST_TEXTS[spec['nest']]), 'dump 1'])
 
 
